@@ -296,7 +296,7 @@ func TestC09Child(t *testing.T) {
 
 func TestC09(t *testing.T) {
 	rec := ev.New(t, "C09")
-	rec.Rule("rapid-generated ring (1..4 real LocalNodes, adversarial id layouts) plus a joiner; the join is stopped at a generated hook point by a gate in the RPC proxy (joiner's first stabilize call = neighbours known, all fingers nil; the joiner's k-th outgoing finger lookup; just before FinishJoin; the predecessor's k-th outgoing finger lookup; the predecessor having adopted the joiner through its own stabilize while the joiner's advisory is still in flight = successor new, finger table stale) and FindSuccessor is issued to the joiner, its neighbours and every other node for generated keys (uniform plus neighbour ids +/- small offsets), again while fingers are being repaired and after the join. Each case runs in a child process that journals every lookup before issuing it. Oracle: every lookup returns a node or an error; the child does not die of stack exhaustion; no lookup is pending for 20 s. A sub-case is one lookup; non-trivial: issued to a node with >= 1 nil finger for a key outside (pred,self] and (self,succ]. Distinct = (ring, joiner, hook, node, key).")
+	rec.Rule("rapid-generated ring (1..4 real LocalNodes, adversarial id layouts) plus a joiner; the join is stopped at a generated hook point by a gate in the RPC proxy (joiner's first stabilize call = neighbours known, all fingers nil; the joiner's k-th outgoing finger lookup; just before FinishJoin; the predecessor's k-th outgoing finger lookup; the predecessor having adopted the joiner through its own stabilize while the joiner's advisory is still in flight = successor new, finger table stale) and FindSuccessor is issued to the joiner, its neighbours and every other node for generated keys (uniform plus neighbour ids +/- small offsets), again while fingers are being repaired and after the join. Each case runs in a child process that journals every lookup before issuing it. Stress tier: two goroutines look up identifiers beyond the successor through ONE real node that never repaired its fingers while 2-3 overlapping stabilization rounds per round rewrite its successor list (30000 rounds, thorough 400000; a round that does not finish within 20 s is a violation). Oracle: every lookup returns a node or an error; the child does not die of stack exhaustion; no lookup is pending for 20 s. A sub-case is one lookup; non-trivial: issued to a node with >= 1 nil finger for a key outside (pred,self] and (self,succ]. Distinct = (ring, joiner, hook, node, key).")
 	rec.Assume("child processes that fail for reasons other than the lookup (build/convergence preconditions) are inconclusive")
 	self := os.Args[0]
 	var mu sync.Mutex
@@ -375,6 +375,25 @@ func TestC09(t *testing.T) {
 	}
 	for _, cs := range c09Regressions {
 		runCase(t, cs)
+	}
+	// stress tier: lookups through a node that has never repaired its fingers, for identifiers
+	// beyond its successor, in a tight loop while its successor list is rewritten by overlapping
+	// stabilization rounds (one real node between scripted neighbours, see c02_overlap_test.go)
+	{
+		p, replay, done, _ := overlappingStabilizeRounds(ev.ShardSeed()+9, ev.Pick(30000, 400000), true)
+		rec.Add("lookup_stress_rounds", int64(done))
+		switch {
+		case strings.HasPrefix(p, "lookup-hang:"):
+			rec.Fail(t, "lookup-did-not-terminate", replay, "%s", p)
+		case strings.HasPrefix(p, "precondition:"):
+			rec.Inconclusive("stress-precondition")
+		default:
+			// a successor-list mismatch after the quiet period is C02's business and reported there
+			d := done
+			rec.Case(true, "stress:lookups-while-successor-list-is-rewritten", func() any {
+				return map[string]any{"scenario": "two goroutines look up identifiers beyond the successor through a node with unrepaired fingers while 2-3 stabilization rounds overlap and rewrite its successor list", "rounds": d}
+			}, "stress:lookups-while-successor-list-is-rewritten")
+		}
 	}
 	ev.RapidCheck(t, 12, 240, func(t *rapid.T) {
 		ids := genLayoutIDs(1, 4).Draw(t, "ids")
